@@ -13,7 +13,8 @@ Ltac bridge := intros; cbv beta delta [gen_filter_ignore_underscores gen_ctx_is_
   gen_walk_leftover_error gen_sync_check gen_sync_keeps_skipping gen_sync_checks_before_yield gen_lj_gets_default
   gen_lj_final_ok gen_change_at gen_change_offsets gen_fast_path gen_join_key_and_payload_index gen_get_data_names_first gen_cg_get_iter_stops_on_stopiteration gen_cg_args_in_list_order
   gen_cg_streamnode_pulls_first_eagerly gen_pull_order_get_data gen_pull_order_reduce gen_pull_order_field
-  gen_streamable_zips_in_arg_order gen_pull_order_zip gen_ms_table_is_one_chunk_stream m_ms_table_is_one_chunk_stream m_cg_args_in_list_order m_cg_get_iter_stops_on_stopiteration
+  gen_streamable_zips_in_arg_order gen_pull_order_zip gen_ms_table_is_one_chunk_stream m_ms_table_is_one_chunk_stream gen_borders_compare_neighbouring_rows
+  m_borders_compare_neighbouring_rows gen_with_ignored_added_is_functional m_with_ignored_added_is_functional m_cg_args_in_list_order m_cg_get_iter_stops_on_stopiteration
   m_cg_streamnode_pulls_first_eagerly m_streamable_zips_in_arg_order m_pull_order_get_data m_pull_order_reduce
   m_pull_order_field m_pull_order_zip SRC_NAMES SRC_DATA SRC_SIZES SRC_FIRST
   m_filter_ignore_underscores m_ctx_is_ignored m_ctx_is_included m_order_drops_underscore_names m_included_action
@@ -84,6 +85,11 @@ Proof. repeat split; bridge. Qed.
 
 Lemma b_ms_table_is_one_chunk_stream : gen_ms_table_is_one_chunk_stream = m_ms_table_is_one_chunk_stream.
 Proof. bridge. Qed.
+
+Lemma b_borders_and_deriving :
+  gen_borders_compare_neighbouring_rows = m_borders_compare_neighbouring_rows
+  /\ gen_with_ignored_added_is_functional = m_with_ignored_added_is_functional.
+Proof. split; bridge. Qed.
 
 (* ---------- (b) the model's state machines follow the named rules ---------- *)
 Section Steps.
